@@ -1455,6 +1455,20 @@ func (g *G) genFunc(i int) *Func {
 			}
 		}
 	}
+	if r.Chance(1, 8) {
+		// a local variable that SHADOWS a predeclared identifier (nil, true, false, iota, len,
+		// string), updated between yields of it that stand alone in a thunk: first statement
+		// of a loop body, directly behind a yielding if / switch
+		name := []string{"nil", "true", "false", "iota", "len", "string"}[r.Intn(6)]
+		p0 := "3"
+		if len(f.Params) > 0 {
+			p0 = f.Params[0]
+		}
+		id := g.id()
+		text := fmt.Sprintf("{\n\t%[1]s := %[2]s\n\tbump%[3]d := func() { %[1]s += 100 }\n\tfor i9 := 0; i9 < 2; i9++ {\n\t\t«Yield»(%[1]s)\n\t\t%[1]s += 10\n\t}\n\tif %[1]s > 15 {\n\t\t«Yield»(-1)\n\t}\n\t«Yield»(%[1]s)\n\tswitch {\n\tcase %[1]s %% 2 == 0:\n\t\tbump%[3]d()\n\t\t«Yield»(-2)\n\t}\n\t«Yield»(%[1]s)\n\tfor {\n\t\t«Yield»(%[1]s)\n\t\tbump%[3]d()\n\t\tif %[1]s > 250 {\n\t\t\tbreak\n\t\t}\n\t}\n\tvrt.E(%[4]d, %[1]s)\n}", name, p0, id, g.nextTag())
+		f.Body = append([]*S{{K: SRaw, ID: id, Src: text}}, f.Body...)
+		g.mark("local_variable_shadowing_a_predeclared_identifier_yielded_bare")
+	}
 	if r.Chance(1, 6) {
 		// the body ENDS in a user-written block that yields (tail position of its thunk). In
 		// front of it, with no yield in between, a variable is declared and captured; the
